@@ -404,6 +404,8 @@ impl<'a, R: RealNumberInternalTrait> Interpreter<'a, R> {
     }
 
     pub fn eval_expression(expression: &Expression, env: &Rc<Environment<R>>) -> Result<Value<R>> {
+        #[cfg(ruschm_verif)]
+        let _verif_guard = crate::verif_hooks::enter()?;
         Ok(match &expression.data {
             ExpressionBody::Primitive(datum) => Self::eval_primitive(datum)?,
             ExpressionBody::Datum(datum) => Self::read_literal(datum, env)?,
